@@ -146,6 +146,7 @@ type Node struct {
 	PreOp string // "upper", "err", "trim", "issue", "wrap"
 	Named bool   // KString: the destination type is the named type NamedStr (StringSchema[NamedStr])
 	PreID int
+	CustomMut bool // KCustom: the function also writes through the pointer it is given (upper-cases the string)
 }
 
 func strp(s string) *string { return &s }
